@@ -171,6 +171,9 @@ fn e2e_batch(sink: &mut Sink, r: &mut Rng, bin: &str, scratch: &str) {
         }
         let name = format!("src/f{k}.{ext}");
         std::fs::write(dir.join(&name), &bytes).unwrap();
+        if let Ok(h) = std::fs::OpenOptions::new().write(true).open(dir.join(&name)) {
+            let _ = h.set_modified(std::time::UNIX_EPOCH + std::time::Duration::from_secs(1_600_000_000));
+        }
         let text = String::from_utf8_lossy(&bytes).into_owned();
         expect.push((name, count_bytes(&lang.comment_syntax, &bytes), line_ends(&text).len(), std::str::from_utf8(&bytes).is_ok()));
     }
@@ -220,6 +223,28 @@ fn e2e_batch(sink: &mut Sink, r: &mut Rng, bin: &str, scratch: &str) {
                 }
             }
             _ => pred = pred.or(Some(format!("{name}: the counter panicked"))),
+        }
+    }
+    // "repeated calls agree": the same two commands with the SLOC cache, cold and then warm
+    let listing = |v: &serde_json::Value, key: &str, inner: bool| -> Vec<(String, Option<(usize, usize, usize, usize)>)> {
+        let mut rows: Vec<_> = v.get(key).and_then(|x| x.as_array()).cloned().unwrap_or_default().iter().map(|x| (x.get("path").and_then(|p| p.as_str()).unwrap_or("").to_string(), if inner { x.get("stats").and_then(quad) } else { quad(x) })).collect();
+        rows.sort();
+        rows
+    };
+    let (want_check, want_stats) = (listing(&check, "results", true), listing(&stats, "top_files", false));
+    for round in ["cold cache", "warm cache", "warm cache again"] {
+        if pred.is_some() {
+            break;
+        }
+        let (_, c, _) = run(&["check", "--format", "json", "."]);
+        let (_, st, _) = run(&["stats", "files", "--format", "json", "."]);
+        let (got_check, got_stats) = (listing(&c, "results", true), listing(&st, "top_files", false));
+        if got_check != want_check {
+            let d = got_check.iter().find(|x| !want_check.contains(x)).or_else(|| want_check.iter().find(|x| !got_check.contains(x)));
+            pred = Some(format!("`check` with a {round} differs from `check --no-sloc-cache`, e.g. {d:?}"));
+        } else if got_stats != want_stats {
+            let d = got_stats.iter().find(|x| !want_stats.contains(x)).or_else(|| want_stats.iter().find(|x| !got_stats.contains(x)));
+            pred = Some(format!("`stats files` with a {round} differs from `stats files --no-sloc-cache`, e.g. {d:?}"));
         }
     }
     let _ = std::fs::remove_dir_all(&dir);
